@@ -695,7 +695,8 @@ class Machine:
                 elif isinstance(v, SymSlice):
                     cur = LV(sym=v.content, addr=v.ptr)
                 elif isinstance(v, Opaque):
-                    cur = LV(sym=E("deref", (v.e,)), ty=(v.ty or {}).get("inner"))
+                    inner_e = v.e.args[0] if v.e.op == "ref" else E("deref", (v.e,))
+                    cur = LV(sym=inner_e, ty=(v.ty or {}).get("inner"))
                 elif isinstance(v, Int):
                     cur = LV(sym=E("mem", (v.e,)), addr=v)
                 elif isinstance(v, FnVal):
@@ -1289,7 +1290,8 @@ class Machine:
                     base = dict(place)
                     base = {"l": place["l"], "p": place["p"][:-1]}
                     return self.read_place(st, fr, base)
-                return Opaque(E("ref", (lv.sym,)), None)
+                rty = {"k": "ref", "mut": rv["mut"], "inner": lv.ty, "s": "&" + (lv.ty or {}).get("s", "?")} if lv.ty else None
+                return Opaque(E("ref", (lv.sym,)), rty)
             return Ref(lv.cell, lv.path, rv["mut"])
         if k == "cast":
             return self.cast(st, fr, rv)
@@ -1354,6 +1356,10 @@ class Machine:
             if op == "Cmp":
                 raise Unsupported("three-way compare")
             return int_binop(op, a, b)
+        if isinstance(a, Int) and isinstance(b, Opaque):
+            return self.binop(op, a, Int(a.w, a.signed, E(b.e.op, b.e.args, a.w)))
+        if isinstance(b, Int) and isinstance(a, Opaque) and not op.startswith("Sh"):
+            return self.binop(op, Int(b.w, b.signed, E(a.e.op, a.e.args, b.w)), b)
         if op in ("Eq", "Ne") and (isinstance(a, (Ref, FnVal, Opaque)) or isinstance(b, (Ref, FnVal, Opaque))):
             ea = a.e if isinstance(a, (Int, Opaque)) else E("addr", (repr(a),))
             eb = b.e if isinstance(b, (Int, Opaque)) else E("addr", (repr(b),))
